@@ -276,7 +276,19 @@ func genHvalX(r *rand.Rand, kind int) sx.V {
 		case 1:
 			rid = sx.List(sx.Bytes(advBytes(r)))
 		}
-		return sx.List(k, sx.List(sx.List(sx.Big(thr), rid, sx.List(ents...))))
+		// chain key: none (nil or empty: one value, length 0), 32 random bytes, other lengths
+		var ck []byte
+		switch r.Intn(8) {
+		case 0, 1:
+			ck = nil
+		case 2:
+			ck = advBytes(r)
+		case 3:
+			ck = randBytes(r, []int{1, 8, 31, 33, 64}[r.Intn(5)])
+		default:
+			ck = randBytes(r, 32)
+		}
+		return sx.List(k, sx.List(sx.List(sx.Big(thr), rid, sx.Bytes(ck), sx.List(ents...))))
 	}
 	panic("kind")
 }
@@ -349,7 +361,14 @@ func goConfigX(cv sx.V) *cmpconfig.Config {
 		}
 		cfg.RID = verifhook.RID(rid)
 	}
-	for _, e := range cv.L[2].L {
+	// chain key: an empty description is a nil or an empty (non-nil) slice, chosen from the description -- both have
+	// length 0 and are one value in the model
+	if ck := cv.L[2].B; len(ck) > 0 {
+		cfg.ChainKey = verifhook.RID(append([]byte{}, ck...))
+	} else if descHash(cv.String(), "ck")%2 == 0 {
+		cfg.ChainKey = verifhook.RID([]byte{})
+	}
+	for _, e := range cv.L[3].L {
 		cfg.Public[party.ID(e.L[0].B)] = goPublicX(e.L[1])
 	}
 	return cfg
@@ -467,8 +486,19 @@ func perturbValueX(v sx.V) *sx.V {
 			return nil
 		}
 		cv := v.L[1].L[0]
-		thr, rid, ents := cv.L[0], cv.L[1], append([]sx.V{}, cv.L[2].L...)
-		switch which % 4 {
+		thr, rid, ck, ents := cv.L[0], cv.L[1], cv.L[2], append([]sx.V{}, cv.L[3].L...)
+		switch which % 5 {
+		case 4:
+			// only the chain key changes: last byte flipped, or a byte appended to an empty one
+			b := append([]byte{}, ck.B...)
+			if len(b) == 0 {
+				b = []byte{0}
+			} else if which/5%3 == 0 {
+				b = b[:len(b)-1]
+			} else {
+				b[len(b)-1] ^= 1
+			}
+			ck = sx.Bytes(b)
 		case 0:
 			t := thr.Z.Int64()
 			if t >= 0 && t < 1<<32-1 {
@@ -494,10 +524,10 @@ func perturbValueX(v sx.V) *sx.V {
 			}
 			fallthrough
 		default:
-			i := which / 4 % len(ents)
-			ents[i] = sx.List(ents[i].L[0], perturbPublicX(ents[i].L[1], which/16))
+			i := which / 5 % len(ents)
+			ents[i] = sx.List(ents[i].L[0], perturbPublicX(ents[i].L[1], which/20))
 		}
-		out = sx.List(v.L[0], sx.List(sx.List(thr, rid, sx.List(ents...))))
+		out = sx.List(v.L[0], sx.List(sx.List(thr, rid, ck, sx.List(ents...))))
 	default:
 		return nil
 	}
@@ -622,10 +652,10 @@ func c19xWidthWitness() (a, b sx.V) {
 		return sx.List(e, g, sx.Big(pn), sx.Big(n), sx.Big(s), sx.Big(t))
 	}
 	i := func(x int64) *big.Int { return big.NewInt(x) }
-	a = sx.List(sx.Int(24), sx.List(sx.List(sx.Int(1), rid, sx.List(
+	a = sx.List(sx.Int(24), sx.List(sx.List(sx.Int(1), rid, sx.Bytes(nil), sx.List(
 		sx.List(sx.Str("a"), pub(c19xG, c19x2G, i(7), add(top, 11), add(top, 12), add(top, 13))),
 		sx.List(sx.Str("b"), pub(c19xG, c19x2G, add(mul(encG, 256), 9), i(14), i(15), i(16)))))))
-	b = sx.List(sx.Int(24), sx.List(sx.List(sx.Int(1), rid, sx.List(
+	b = sx.List(sx.Int(24), sx.List(sx.List(sx.Int(1), rid, sx.Bytes(nil), sx.List(
 		sx.List(sx.Str("a"), pub(c19xG, c19x2G, add(mul(sh, 7), 1), add(mul(sh, 11), 1), add(mul(sh, 12), 1), new(big.Int).Add(mul(sh, 13), encG))),
 		sx.List(sx.Str("b"), pub(c19x2G, c19xG, i(9), i(14), i(15), i(16)))))))
 	return
@@ -640,9 +670,9 @@ func c19xOnePartyWitness() (a, b sx.V) {
 	pub := func(e, g sx.V, pn *big.Int) sx.V {
 		return sx.List(e, g, sx.Big(pn), sx.Int(14), sx.Int(15), sx.Int(16))
 	}
-	a = sx.List(sx.Int(24), sx.List(sx.List(sx.Int(0), sx.List(sx.Bytes(rid)), sx.List(
+	a = sx.List(sx.Int(24), sx.List(sx.List(sx.Int(0), sx.List(sx.Bytes(rid)), sx.Bytes(nil), sx.List(
 		sx.List(sx.Str("a"), pub(c19xG, c19x2G, new(big.Int).Add(new(big.Int).Lsh(encG, 8), big.NewInt(9))))))))
-	b = sx.List(sx.Int(24), sx.List(sx.List(sx.Int(0), sx.List(sx.Bytes(append(append([]byte{}, rid...), compressedX(c19xG)...))), sx.List(
+	b = sx.List(sx.Int(24), sx.List(sx.List(sx.Int(0), sx.List(sx.Bytes(append(append([]byte{}, rid...), compressedX(c19xG)...))), sx.Bytes(nil), sx.List(
 		sx.List(sx.Str("a"), pub(c19x2G, c19xG, big.NewInt(9)))))))
 	return
 }
@@ -652,6 +682,20 @@ func c19xOnePartyWitness() (a, b sx.V) {
 func c19xTruncationWitness() (a, b sx.V) {
 	a = sx.List(sx.Int(18), sx.Int(5), sx.Int(1), sx.Int(1))
 	b = sx.List(sx.Int(18), sx.Big(new(big.Int).Add(big.NewInt(5), new(big.Int).Lsh(big.NewInt(1), 2048))), sx.Int(1), sx.Int(1))
+	return
+}
+
+// c19xChainKeyWitness: HvalProofs.wit_ck_config [] / wit_ck_config (repeat 9 32): two configs that differ ONLY in their
+// chain key.  Before Config.WriteTo wrote the chain key both had the same bytes, hence the same session tag.
+func c19xChainKeyWitness() (a, b sx.V) {
+	two2047 := new(big.Int).Lsh(big.NewInt(1), 2047)
+	pub := func(d int64) sx.V {
+		return sx.List(c19xG, c19x2G, sx.Big(new(big.Int).Add(two2047, big.NewInt(d))), sx.Int(14), sx.Int(15), sx.Int(16))
+	}
+	rid := sx.List(sx.Bytes(bytes.Repeat([]byte{7}, 32)))
+	ents := sx.List(sx.List(sx.Str("a"), pub(1)), sx.List(sx.Str("b"), pub(3)))
+	a = sx.List(sx.Int(24), sx.List(sx.List(sx.Int(1), rid, sx.Bytes(nil), ents)))
+	b = sx.List(sx.Int(24), sx.List(sx.List(sx.Int(1), rid, sx.Bytes(bytes.Repeat([]byte{9}, 32)), ents)))
 	return
 }
 
@@ -666,11 +710,13 @@ func (c *ctx) c19xWidthProbe() bool {
 	wa, wb := c19xWidthWitness()
 	oa, ob := c19xOnePartyWitness()
 	ta, tb := c19xTruncationWitness()
+	ka, kb := c19xChainKeyWitness()
 	good := true
 	for _, p := range []pair{
 		{"config-paillier-width-shift", wa, wb},
 		{"config-rid-length-shift", oa, ob},
 		{"pedersen-truncation", ta, tb},
+		{"config-chainkey", ka, kb},
 	} {
 		c.c19DirectWriteTo([]sx.V{p.a, p.b})
 		ga, oka := goDigest([]sx.V{p.a})
